@@ -238,6 +238,42 @@ def run(ctx):
                             elif seen != want:
                                 ctx.spec_fail('%s|%s|staging|%s' % (fn.__name__, handle, 'partial-or-emptied' if fail is not None else 'wrong-state'),
                                               'source read through fromdb on the same connection: a fresh connection does not see what the property prescribes', case)
+        # ---- a connection in autocommit mode (isolation_level=None): a DB-API connection like any other as far as petl can tell
+        for ci in range(6):
+            pa_ = os.path.join(tmpd, 'autocommit_%d.sqlite' % ci)
+            if os.path.exists(pa_):
+                os.unlink(pa_)
+            c0 = sqlite3.connect(pa_)
+            c0.execute('CREATE TABLE t (a, b)')
+            c0.executemany('INSERT INTO t VALUES (?, ?)', [('p', 1), ('q', 2)])
+            c0.commit()
+            c0.close()
+            conn = sqlite3.connect(pa_, isolation_level=None)
+            fail_at = [1, 2, 3][ci % 3]
+            trunc = ci < 3
+            def failing(fail_at=fail_at):
+                yield ('a', 'b')
+                for i in range(3):
+                    if i + 1 == fail_at:
+                        raise Boom()
+                    yield ('r%d' % i, i)
+                if fail_at == 4:
+                    raise Boom()
+            try:
+                (etl.todb if trunc else etl.appenddb)(failing(), conn, 't')
+                raised = None
+            except Boom:
+                raised = 'Boom'
+            except Exception as e:   # noqa
+                raised = type(e).__name__
+            conn.close()
+            seen = fresh_contents(pa_)
+            ctx.case(('autocommit', trunc, fail_at))
+            ctx.count('handle:autocommit-connection')
+            if raised != 'Boom' or seen != [('p', 1), ('q', 2)]:
+                ctx.spec_fail('todb|autocommit-connection|partial-or-emptied',
+                              'a load through a connection in autocommit mode whose source fails leaves an emptied or partly loaded table',
+                              {'op': 'todb' if trunc else 'appenddb', 'fail_at': fail_at, 'raised': raised, 'fresh_connection_sees': repr(seen)})
         # ---- schema=: the table named is the one replaced / extended, also when another schema of the connection has a table of
         # the same name that sqlite would resolve first (a TEMP table, main before an attached database)
         for ci in range(24 if ctx.thorough() else 8):
